@@ -15,11 +15,12 @@ Definition state_after (s : hstate) (os : list op) : hstate := fold_left (fun s'
 
 Lemma step_world s o : h_world (fst (step s o)) = apply_op (h_world s) o.
 Proof.
-  destruct o as [q|c|m|m]; cbn [step apply_op].
+  destruct o as [q|c|m|m|m k]; cbn [step apply_op].
   - destruct (exec (h_world s) (h_topo s) q). reflexivity.
   - reflexivity.
   - reflexivity.
   - destruct (h_rt s || (length (h_world s) =? 0)); reflexivity.
+  - reflexivity.
 Qed.
 
 Lemma state_after_world os : forall s, h_world (state_after s os) = world_after (h_world s) os.
@@ -44,7 +45,7 @@ Proof. apply upd_length. Qed.
 
 Lemma apply_op_closed w o : closed' w -> closed' (apply_op w o).
 Proof.
-  intros H. destruct o as [q|c|m|m]; cbn [apply_op]; try exact H.
+  intros H. destruct o as [q|c|m|m|m k]; cbn [apply_op]; try exact H.
   - apply add_chain_closed. exact H.
   - destruct (can_new_gate w m); [|exact H]. intros g c Hg. rewrite new_gate_length.
     apply (H g c). eapply get_new_gate. exact Hg.
@@ -54,7 +55,7 @@ Definition op_short (o : op) : Prop := match o with OConnect c => length c <= S 
 
 Lemma apply_op_short w o : op_short o -> short' w -> short' (apply_op w o).
 Proof.
-  intros Ho H. destruct o as [q|c|m|m]; cbn [apply_op]; try exact H.
+  intros Ho H. destruct o as [q|c|m|m|m k]; cbn [apply_op]; try exact H.
   - apply add_chain_short; assumption.
   - destruct (can_new_gate w m); [|exact H]. intros g c Hg. apply (H g c). eapply get_new_gate. exact Hg.
 Qed.
